@@ -136,26 +136,44 @@ Section RecordParse.
         (ce ++ es, fn, Some (with_perrs c ce) :: rest')
     end.
 
-  (* the self-consistency assertions of validate (run when no slot is None):
-     as many names as slots; every slot's column carries its own position and
-     is the column the name map holds under its name.  (python compares object
+  (* the self-consistency block of validate (run when no slot is None; repaired
+     code: problems are validation errors, not assertions).
+     `self.__columns_dict.get(column.key) is not column`: python compares object
      identities; the model compares name and index, which decides the same for
-     every record reachable through the public API - property C15.) *)
-  Fixpoint slots_consistent (d : list (str * column)) (slots : list (option column)) (i : Z) : bool :=
-    match slots with
-    | [] => true
-    | None :: rest => slots_consistent d rest (i + 1)
-    | Some c :: rest =>
-        match cidx c, assoc (ckey c) d with
-        | Some ci, Some c' =>
-            (ci =? i) && str_eqb (ckey c') (ckey c)
-            && match cidx c' with Some cj => cj =? i | None => false end
-            && slots_consistent d rest (i + 1)
-        | _, _ => false
+     a record whose stored column objects were modified in place (the only way
+     to get out of sync through the public API - property C15). *)
+  Definition slot_in_sync (d : list (str * column)) (o : option column) : bool :=
+    match o with
+    | None => true
+    | Some c =>
+        match assoc (ckey c) d with
+        | Some c' =>
+            str_eqb (ckey c') (ckey c)
+            && match cidx c, cidx c' with
+               | Some i, Some j => i =? j
+               | None, None => true
+               | _, _ => false
+               end
+        | None => false
         end
     end.
-  Definition asserts_hold (r : rec payload) : bool :=
-    Nat.eqb (length (rdict r)) (length (rlist r)) && slots_consistent (rdict r) (rlist r) 0.
+
+  (* `if column_index != column.column_index` for every slot *)
+  Fixpoint index_sync_errs (slots : list (option column)) (i : Z) (ln : option Z) : list verr :=
+    match slots with
+    | [] => []
+    | None :: rest => index_sync_errs rest (i + 1) ln
+    | Some c :: rest =>
+        (if match cidx c with Some ci => ci =? i | None => false end then []
+         else [mkerr T_RECORD_COLUMN_INDEX_OUT_OF_SYNC ln])
+        ++ index_sync_errs rest (i + 1) ln
+    end.
+
+  Definition sync_errs (r : rec payload) (ln : option Z) : list verr :=
+    (if negb (Nat.eqb (length (rdict r)) (length (rlist r)))
+        || negb (forallb (slot_in_sync (rdict r)) (rlist r))
+     then [mkerr T_RECORD_OUT_OF_SYNC ln] else [])
+    ++ index_sync_errs (rlist r) 0 ln.
 
   (* MafRecord.validate *)
   Definition record_validate (r : mrec) (m : option mode) (lg : logger) (reset : bool)
@@ -169,13 +187,13 @@ Section RecordParse.
       | None => []
       end in
     let '(es, found_none, slots') := validate_slots (rlist (mcols r)) 0 reset sch (mline r) in
-    let errs := errs0 ++ e_count ++ es in
+    let e_sync := if found_none then [] else sync_errs (mcols r) (mline r) in
+    let errs := errs0 ++ e_count ++ es ++ e_sync in
     let upd (c : column) := with_perrs c (column_validate c reset sch None) in
     let cols' := {| rdict := map (fun kc => (fst kc, upd (snd kc))) (rdict (mcols r));
                     rlist := slots' |} in
     let r' := {| mline := mline r; mcols := cols'; merrs := errs; mmode := mmode r |} in
-    if negb found_none && negb (asserts_hold (mcols r)) then ([], Raise AssertionError)
-    else obind (process m' lg errs) (fun _ => oret r').
+    obind (process m' lg errs) (fun _ => oret r').
 
   (* the loop of from_line over zip(column_names, column_values) *)
   Fixpoint from_line_loop (i : Z) (nvs : list (str * str)) (sch : option scheme) (ln : option Z)
